@@ -368,6 +368,15 @@ benign("c08-clone-from-assign", ["C08", "C03", "C04"], _cf("*self = source.clone
 benign("c08-clone-from-index-loop", ["C08", "C03", "C04"], _cf("for i in 0..N::USIZE { self[i] = source[i].clone(); }"))
 benign("c08-clone-from-source-first-assign", ["C08", "C03", "C04"], _cf("for (src, dst) in source.iter().zip(self.iter_mut()) { *dst = src.clone(); }"))
 
+# ---- a NEW part-view API (first_chunk-style prefix of a slice as an array, round 18 / S201): in bounds is what it owes; the anchored whole-slice
+# ---- conversions stay exact (the seed S201 itself, which rebuilds try_from_mut_slice on the prefix view, is a regression mutant through _seeded)
+_FC_ANCHOR = "    /// Converts a slice of `T` elements into a slice of `GenericArray<T, N>` chunks.\n    ///\n    /// Any remaining elements that do not fill the array will be returned as a second slice.\n    ///\n    /// # Panics\n    ///\n    /// Panics if `N` is `U0` _AND_ the input slice is not empty.\n    pub const fn chunks_from_slice("
+def _fc(guard):
+    return [("src/lib.rs", _FC_ANCHOR, "    /// The first `N` elements of the slice as an array reference, `None` if there are fewer.\n    pub const fn first_chunk_from_slice(slice: &[T]) -> Option<&GenericArray<T, N>> {\n        if %s {\n            return None;\n        }\n        Some(unsafe { &*(slice.as_ptr() as *const GenericArray<T, N>) })\n    }\n\n" % guard + _FC_ANCHOR)]
+benign("c02-new-prefix-view-api-in-bounds", ["C02", "C12", "C18", "C01"], _fc("slice.len() < N::USIZE"))
+mutant("c02-new-prefix-view-api-guard-off-by-one", ["C02"], _fc("slice.len() + 1 < N::USIZE"), "C02.G.sweep")
+mutant("c02-new-prefix-view-api-no-guard-for-empty", ["C02"], _fc("slice.len() < N::USIZE && !slice.is_empty()"), "C02.G.sweep")
+
 # ---- mutants of the refactored forms: the semantic rules must still refute a wrong version of each alternative formulation ----
 def mutant_on_patch(name, patch, props, edits, expect=""):
     VARIANTS.append({"name": name, "kind": "mutant", "props": props, "edits": [("patch", patch + ".patch")] + edits, "expect": expect})
